@@ -17,7 +17,7 @@ QUERY_ALGOS = {"T_HOO": 4, "HCT": 4, "VHCT": 3, "Zooming": 3, "POO": 5}
 def bounds(tier):
     q = 0 if tier == "quick" else 1
     return {"time_label_rounds": {k: v + q for k, v in TIME_ALGOS.items()}, "query_rounds": {k: v + q for k, v in QUERY_ALGOS.items()},
-            "partitions": "B, RB, K3", "outside": "longer runs"}
+            "partitions": "B, RB, K3", "label_landmarks": "first label pinned at 2^31-2, 2^53-1, 2^63-2, 2^64 (3 rounds, every path replayed on the unshimmed code)", "outside": "longer runs"}
 
 
 def configs(tier, seed):
@@ -35,6 +35,13 @@ def configs(tier, seed):
             if algo == "Zooming" and part == "RB":
                 Tq = 2 + q
             out.append({"name": "query-%s-%s-T%d" % (algo, part, Tq), "mode": "query", "algo": algo, "part": part, "d": 1, "T": Tq, "cost": 3 ** Tq})
+    # labels at the machine-word landmarks: first label pinned just below 2^31, 2^53, 2^63 and at 2^64, consecutive afterwards; every
+    # path is replayed on the unshimmed code (a label stored in a typed array, or converted to a C integer or a double, wraps,
+    # raises or rounds there - the solver's integers cannot)
+    for algo, T in TIME_ALGOS.items():
+        for nm, L in (("2^31", 2 ** 31 - 2), ("2^53", 2 ** 53 - 1), ("2^63", 2 ** 63 - 2), ("2^64", 2 ** 64)):
+            Tq = min(T, 3)
+            out.append({"name": "time-%s-B-T%d-labels~%s" % (algo, Tq, nm), "mode": "time", "algo": algo, "part": "B", "d": 1, "T": Tq, "label_base": L, "validate_all": True, "cost": Tq * 3})
     # Mode B: concrete prefix, then symbolic rewards; time labels symbolic in ALL rounds of the second run
     for c in c01.modeb_configs(tier, [a for a in TIME_ALGOS if a != "VROOM"], parts=("B", "K3")):  # VROOM: every draw forks, Mode A only
         if c["prefix"]["seed"] == 0 and (c["prefix"]["P"] <= 130 or q):
@@ -94,7 +101,10 @@ def run(ctx, cfg):
             labels = []
             prev = None
             for k in range(T):
-                t = ctx.int("label%d" % (k + 1), 0)
+                if cfg.get("label_base") is not None:
+                    t = ctx.int("label%d" % (k + 1), cfg["label_base"] + k, cfg["label_base"] + k)
+                else:
+                    t = ctx.int("label%d" % (k + 1), 0)
                 if prev is not None:
                     ctx.assume(t > prev)
                 prev = t
